@@ -14,6 +14,10 @@ RULE = ("histories of two kinds. (a) files with 2..5 datasets (mixed ranks 0..3 
         "across the datasets and across SDend/SDstart cycles; after every reopen and at the end EVERY dataset is read "
         "in full and compared with its own array (never-written ones must read as fill; a write to one dataset must not "
         "show in another); after the last reopen a never-written dataset is written and all are re-read. "
+        "Read-only sessions (SDend + SDstart(DFACC_READ), reads of every dataset incl. never-written ones, back to read-write) "
+        "are interleaved in both kinds; 150 'fill-mode' histories switch SD_NOFILL on and off around reopen, empty / "
+        "out-of-range requests, reads before the first write and end with a clean-header NOFILL->FILL switch followed by a "
+        "first write / growth past a gap. "
         "(b) one dataset per fresh file: rank 0..4 (+ spot ranks 8 and 32), extents 1..6, optional unlimited "
         "first dimension, every 8/16/32-bit integer type, char, float32/64 in standard, little-endian and native "
         "flavour; then 3..12 operations drawn from one PRNG (VERIF_SEED): SDsetfillmode, SDsetfillvalue (before the "
@@ -119,7 +123,23 @@ class Gen:
                 sd = [x if x != 1 else r.choice([1, 2]) for x in sd]
         return us, st, sd, ct
 
-    def history(self, spot=None):
+    def ro_block(self, dims, unlim, numrecs):
+        """SDend + SDstart(DFACC_READ), reads only, then back to a read-write session."""
+        r = self.r
+        rank = len(dims)
+        full = list(dims)
+        if unlim:
+            full[0] = max(numrecs, 1)
+        out = ["O", "G", self.fmt_req("R", 0, [0] * rank, [1] * rank, full)]
+        for _ in range(r.randrange(0, 3)):
+            us, st, sd, ct = self.request(dims, unlim, numrecs, False, "valid" if r.random() < 0.8 else "oob")
+            out.append(self.fmt_req("R", us, st, sd, ct))
+        return out + ["C"]
+
+    def history(self, spot=None, mode_heavy=False):
+        """mode_heavy: the class 'fill mode switched off and on again / empty requests / failed reads around the first
+        write': early reopen (dataset created in an earlier session), many SDsetfillmode toggles, empty and
+        out-of-range requests, reads before the first write, growth past a gap right after switching back."""
         r = self.r
         rank = r.choice([0, 1, 1, 2, 2, 2, 3, 3, 4])
         if spot:
@@ -140,8 +160,34 @@ class Gen:
         lines = ["H %d %d %d%s" % (rank, nt, 1 if unlim else 0, "".join(" %d" % d for d in cdims))]
         numrecs = 0
         written = False
-        if r.random() < 0.2:
+        mode = 0
+        pW, pR, pG, pC = (0.47, 0.80, 0.88, 0.95) if not mode_heavy else (0.40, 0.68, 0.72, 0.80)
+        wkinds = (0.8, 0.92) if not mode_heavy else (0.6, 0.78)
+        scripted = False
+        if mode_heavy and r.random() < 0.5:
+            lines.append("C")
+        elif mode_heavy and rank > 0 and r.random() < 0.7:
+            # the new dataset is attached by a read, then gets a write request in no-fill mode that transfers nothing
+            # (empty or rejected at its start), then fill mode comes back: later writes, failed calls (which detach
+            # the dataset) and re-attachments must all still work
+            scripted = True
             lines.append("M 256")
+            us, st, sd, ct = self.request(dims, unlim, numrecs, False, "valid")
+            lines.append(self.fmt_req("R", us, st, sd, ct))
+            us, st, sd, ct = self.request(dims, unlim, numrecs, True, "degenerate" if r.random() < 0.6 else "oob")
+            n = 1
+            for c in ct:
+                n *= max(c, 0)
+            if n <= 4000:
+                lines.append(self.fmt_req("W", us, st, sd, ct) + " %d%s" % (n, "".join(" " + self.value(w) for _ in range(n))))
+                written = True
+            if r.random() < 0.7:
+                lines.append("M 0")
+            else:
+                mode = 256
+        if not scripted and r.random() < (0.2 if not mode_heavy else 0.5):
+            lines.append("M 256")
+            mode = 256
         if r.random() < 0.5:
             lines.append("V " + self.value(w))
             if r.random() < 0.2:
@@ -155,9 +201,9 @@ class Gen:
             lines.append(self.fmt_req("R", us, st, sd, ct))
         for _ in range(r.randrange(3, 13)):
             p = r.random()
-            if p < 0.47:
+            if p < pW:
                 k = r.random()
-                kind = "valid" if k < 0.8 else ("oob" if k < 0.92 else "degenerate")
+                kind = "valid" if k < wkinds[0] else ("oob" if k < wkinds[1] else "degenerate")
                 us, st, sd, ct = self.request(dims, unlim, numrecs, True, kind)
                 n = 1
                 for c in ct:
@@ -170,9 +216,9 @@ class Gen:
                 if kind == "valid":
                     if unlim:
                         numrecs = max(numrecs, st[0] + (ct[0] - 1) * sd[0] + 1)
-            elif p < 0.80:
+            elif p < pR:
                 k = r.random()
-                kind = "valid" if k < 0.8 else ("oob" if k < 0.93 else "degenerate")
+                kind = "valid" if k < (0.8 if not mode_heavy else 0.65) else ("oob" if k < 0.93 else "degenerate")
                 us, st, sd, ct = self.request(dims, unlim, numrecs, False, kind)
                 n = 1
                 for c in ct:
@@ -180,19 +226,47 @@ class Gen:
                 if n > 4000:
                     continue
                 lines.append(self.fmt_req("R", us, st, sd, ct))
-            elif p < 0.88:
+            elif p < pG:
                 lines.append("G")
-            elif p < 0.95:
-                lines.append("C")
-            elif not written and p < 0.97:
+            elif p < pC:
+                if r.random() < 0.3:
+                    lines += self.ro_block(dims, unlim, numrecs)
+                else:
+                    lines.append("C")
+                mode = 0
+            elif not written and p < pC + 0.02:
                 lines.append("V " + self.value(w))
             else:
-                lines.append("M %d" % r.choice([0, 256]))
+                mode = (256 - mode) if mode_heavy else r.choice([0, 256])
+                lines.append("M %d" % mode)
         full = list(dims)
         if unlim:
             full[0] = max(numrecs, 1)
         fr = self.fmt_req("R", 0, [0] * rank, [1] * rank, full)
-        lines += ["G", fr, "C", "G", fr, "E"]
+        lines += ["G", fr, "C", "G", fr]
+        if mode_heavy and rank > 0:
+            # a fresh session whose header stays clean: no-fill on, only reads (or a write into data that exists), fill
+            # on again, then a first write / growth past a gap: the unwritten cells / gap records must hold the fill value
+            lines += ["M 256"]
+            us, st, sd, ct = self.request(dims, unlim, numrecs, False, "valid")
+            lines.append(self.fmt_req("R", us, st, sd, ct))
+            lines += ["M 0"]
+            us, st, sd, ct = self.request(dims, unlim, numrecs, True, "valid")
+            if unlim:
+                st[0] = numrecs + r.choice([1, 2, 3])
+                ct[0], sd[0] = 1, 1
+            n = 1
+            for c in ct:
+                n *= max(c, 0)
+            lines.append(self.fmt_req("W", us, st, sd, ct) + " %d%s" % (n, "".join(" " + self.value(w) for _ in range(n))))
+            if unlim:
+                numrecs = max(numrecs, st[0] + 1)
+                full[0] = numrecs
+            fr = self.fmt_req("R", 0, [0] * rank, [1] * rank, full)
+            lines += ["G", fr, "C", "G", fr]
+        if r.random() < 0.4:
+            lines += ["O", "G", fr, "C"]
+        lines.append("E")
         return lines
 
     def multi_history(self):
@@ -250,6 +324,8 @@ class Gen:
                     never.add(cur)
                 continue
             if p < 0.20:
+                if r.random() < 0.4:
+                    lines += ["O"] + read_all()     # read-only session: every dataset, never-written ones included
                 lines.append("C")
                 lines += read_all()
                 cur = len(ds) - 1
@@ -277,8 +353,27 @@ class Gen:
                 lines.append(self.fmt_req("R", us, st, sd, ct))
             else:
                 lines.append("G")
-        lines += read_all() + ["C"] + read_all()
-        # after the reopen: write into a so far unwritten dataset, then every other dataset must be unchanged
+        lines += read_all() + (["O"] + read_all() if r.random() < 0.5 else []) + ["C"] + read_all()
+        # after the reopen: write into a so far unwritten dataset, then every other dataset must be unchanged.
+        # In half of the histories no-fill mode is switched on and off again first, with nothing in between that
+        # dirties the file description (reads, a write into a dataset that already has data): fill mode must be back.
+        if r.random() < 0.5:
+            lines.append("M 256")
+            wr = [j for j in range(len(ds)) if ds[j]["written"] and not ds[j]["unlim"] and j not in never]
+            for _ in range(r.randrange(1, 3)):
+                j = r.randrange(len(ds))
+                dj = ds[j]
+                us, st, sd, ct = self.request(dj["dims"], dj["unlim"], dj["numrecs"], False, "valid")
+                lines += ["S %d" % j, self.fmt_req("R", us, st, sd, ct)]
+            if wr and r.random() < 0.5:
+                j = r.choice(wr)
+                dj = ds[j]
+                us, st, sd, ct = self.request(dj["dims"], False, 0, True, "valid")
+                n = 1
+                for c in ct:
+                    n *= max(c, 0)
+                lines += ["S %d" % j, self.fmt_req("W", us, st, sd, ct) + " %d%s" % (n, "".join(" " + self.value(dj["w"]) for _ in range(n)))]
+            lines.append("M 0")
         k = r.choice(sorted(never))
         d = ds[k]
         us, st, sd, ct = self.request(d["dims"], d["unlim"], d["numrecs"], True, "valid")
@@ -349,7 +444,7 @@ def split_hist(lines, hists):
     return out
 
 
-RLINE = re.compile(r"^(H (ok|fail)$|D (ok|fail)$|S ok$|[MVB] -?\d+$|W -?\d+ \||R -?\d+ g[01] \d+|G -?\d+ |[CE] (ok|fail)$)")
+RLINE = re.compile(r"^(H (ok|fail)$|D (ok|fail)$|S ok$|[MVB] -?\d+$|W -?\d+ \||R -?\d+ g[01] \d+|G -?\d+ |[CEO] (ok|fail)$)")
 
 
 def split_r(lines, hists):
@@ -392,6 +487,8 @@ def cmp_spec(hl, r, s, meta):
         return None if not r.endswith(" -1") else "%s returned FAIL: %s" % (hl.split()[0], r)
     if op == "C":
         return None if r == "C ok" else "close/reopen failed: " + r
+    if op == "O":
+        return None if r == "O ok" else "close/reopen read-only failed: " + r
     if op == "W":
         rc = int(r.split("|")[0].split()[1])
         want = s.split()[1]
@@ -453,7 +550,7 @@ def cmp_spec(hl, r, s, meta):
 def cmp_model(hl, r, m):
     """Library vs implementation model: return codes, transfer sequence, read values, extents -- exact."""
     op = hl[0]
-    if op in "HEMVBCDS" or m == "-":
+    if op in "HEMVBCDSO" or m == "-":
         return None
     if op == "W":
         head, _, tr = r.partition("|")
@@ -709,6 +806,8 @@ def run(ctx):
     hists = corpus(ctx)
     ncorpus = len(hists)
     hists += [g.history() for _ in range(n)]
+    heavy = [g.history(mode_heavy=True) for _ in range(150 if ctx.tier == "quick" else 3000)]
+    hists += heavy
     hists += [g.history(spot=8) for _ in range(6 if ctx.tier == "quick" else 60)]
     hists += [g.history(spot=32) for _ in range(4 if ctx.tier == "quick" else 40)]
     nmulti = 250 if ctx.tier == "quick" else 4000
@@ -718,7 +817,7 @@ def run(ctx):
     hists += big
     if ctx.tier == "thorough":
         hists += exhaustive_small(ctx.rng)
-    stats = {"histories": len(hists), "corpus": ncorpus, "large_offset_histories": len(big), "multi_dataset_histories": len(multi), "ops": {}, "write_ok": 0, "write_fail": 0, "write_any": 0,
+    stats = {"histories": len(hists), "corpus": ncorpus, "large_offset_histories": len(big), "fillmode_toggle_histories": len(heavy), "multi_dataset_histories": len(multi), "ops": {}, "write_ok": 0, "write_fail": 0, "write_any": 0,
              "read_ok": 0, "read_fail": 0, "read_any": 0, "cells_compared": 0, "unlimited": 0, "strided_ops": 0,
              "reopen": 0, "nofill_histories": 0, "rank_hist": {}, "type_hist": {}, "harness_deaths": 0,
              "model_compared_ops": 0}
@@ -755,6 +854,7 @@ def run(ctx):
                 if hl[0] in "WRG" and i < len(Mh[k]) and Mh[k][i] != "-":
                     stats["model_compared_ops"] += 1
                 stats["reopen"] += hl[0] == "C"
+                stats["readonly_sessions"] = stats.get("readonly_sessions", 0) + (hl[0] == "O")
             ctx.case(tuple(h), bool(meta.get("compared")),
                      sample={"history": [x[:100] for x in h[:6]], "lib": [x[:100] for x in Rh[k][:6]]}
                      if (base + k) % 157 == 0 else None)
